@@ -332,6 +332,10 @@ def run(ctx, rep):
     for fn in F.all_fns():
         if fn["qual"].endswith(" as parse::ParseAt>::parse_at") and fn["qual"] not in known:
             rep.bad("decode", fn["qual"], wh(fn["span"]), "UNRECOGNISED: ParseAt impl %s has no ABI reference entry" % fn["qual"])
+    # records reach the user through ParsingIterator / ParsingTable: with `next` the only method the iterator defines, every way of
+    # consuming it (nth, skip, step_by, ...) decodes through the parse_at judged above
+    from ._common import iterators_only_next
+    iterators_only_next(F, rep, "decode-iterator", {"parse::ParsingIterator"}, 1)
     nd = check_derived(F, rep, ref["derived"])
     rep.floor("derived", "derived accessors", nd, 10)
     # the precondition of the engine's read summaries
